@@ -2,9 +2,10 @@
   drv_c02 — replays the op stream of go/C02 (cmd/verif-c02) on SH.Model.Transfer instantiated with `Rat`
   (variant `.fixed`: the tree after fixes/C02-*.diff; `variant repo` op switches to the pinned-tree behaviour).
 
-  ops (one case = one row):
+  ops (one case = one bucket of rows; the rows are independent of each other in the model):
     variant <repo|fixed>
-    key <metric> <ts> <bucketTs> <tags idx:val,…|-> <stags idx:str,…|->
+    key <metric> <ts> <bucketTs> <tags idx:val,…|-> <stags idx:str,…|->    starts the next row and makes it current
+    sel <i>                              makes row i (0-based, in `key` order) current
     ev c <top> <count> <host> <pick>
     ev v <top> <count> <vals q,…|-> <hist v:c,…|-> <host> <pick> <pct>
     ev p <top> <value> <count> <host> <pick> <pct>
@@ -20,12 +21,19 @@ open SH SH.Transfer
 
 abbrev Q := Rat
 
-structure St where
-  var : Variant := Variant.fixed
+structure RowSt where
   row : Row Q := Row.empty ⟨0, 0, [], []⟩
   bucketTs : Nat := 0
   cents : List (Tag × List (Centroid Q)) := []
   item : Option (TLItem Q) := none
+
+structure St where
+  var : Variant := Variant.fixed
+  rows : Array RowSt := #[]
+  cur : Nat := 0
+
+def St.get? (st : St) : Option RowSt := st.rows[st.cur]?
+def St.put (st : St) (r : RowSt) : St := { st with rows := st.rows.set! st.cur r }
 
 /-! parsing -/
 
@@ -124,10 +132,13 @@ def showKey (k : Key) : String :=
 /-! steps -/
 
 def evStep (st : St) (top : Tag) (e : Event Q) : St × List String :=
-  let r := rowEvent st.row top e
-  let key := if top.isEmpty then Tag.none else top.normalize
-  let m := if top.isEmpty then r.tail else (r.top.lookup key).getD MultiValue.empty
-  ({ st with row := r }, [showMV true ("mv " ++ showTag key) m])
+  match st.get? with
+  | none => (st, ["bad-op"])
+  | some rs =>
+    let r := rowEvent rs.row top e
+    let key := if top.isEmpty then Tag.none else top.normalize
+    let m := if top.isEmpty then r.tail else (r.top.lookup key).getD MultiValue.empty
+    (st.put { rs with row := r }, [showMV true ("mv " ++ showTag key) m])
 
 def lookupCents (cs : List (Tag × List (Centroid Q))) (t : Tag) : List (Centroid Q) := (cs.lookup t).getD []
 
@@ -141,7 +152,7 @@ def step (st : St) (toks : List String) : St × List String :=
     | some metric, some ts, some bts, some tags, some stags =>
       if tags.any (fun p => p.1 ≥ maxTags) || stags.any (fun p => p.1 ≥ maxTags) then (st, ["bad-op"]) else
       let k : Key := ⟨ts, metric, sparse 0 tags, sparse [] stags⟩
-      ({ st with row := Row.empty k, bucketTs := bts, cents := [], item := none }, ["key " ++ showKey k])
+      ({ st with rows := st.rows.push { row := Row.empty k, bucketTs := bts }, cur := st.rows.size }, ["key " ++ showKey k])
     | _, _, _, _, _ => (st, ["bad-op"])
   | ["ev", "c", top, count, host, pick] =>
     match parseTag? top, parseQ? count, parseTag? host, parseBool? pick with
@@ -160,21 +171,25 @@ def step (st : St) (toks : List String) : St × List String :=
     match parseTag? top, parseQ? count, parsePairs? parseQ? String.toNat? hashes, parseTag? host, parseBool? pick with
     | some top, some count, some hashes, some host, some pick => evStep st top (.unique hashes count host pick)
     | _, _, _, _, _ => (st, ["bad-op"])
+  | ["sel", i] =>
+    match i.toNat? with
+    | some i => if i < st.rows.size then ({ st with cur := i }, []) else (st, ["bad-op"])
+    | none => (st, ["bad-op"])
   | ["cents", top, cs] =>
-    match parseTag? top, parsePairs? parseQ? parseQ? cs with
-    | some top, some cs => ({ st with cents := (top, cs.map (fun p => ⟨p.1, p.2⟩)) :: st.cents }, [])
-    | _, _ => (st, ["bad-op"])
+    match parseTag? top, parsePairs? parseQ? parseQ? cs, st.get? with
+    | some top, some cs, some rs => (st.put { rs with cents := (top, cs.map (fun p => ⟨p.1, p.2⟩)) :: rs.cents }, [])
+    | _, _, _ => (st, ["bad-op"])
   | ["send", sf, pct] =>
-    match parseQ? sf, parseBool? pct with
-    | some sf, some pct =>
-      let it := rowToTL st.var st.row st.bucketTs sf pct (lookupCents st.cents)
-      ({ st with item := some it }, showTLItem it)
-    | _, _ => (st, ["bad-op"])
+    match parseQ? sf, parseBool? pct, st.get? with
+    | some sf, some pct, some rs =>
+      let it := rowToTL st.var rs.row rs.bucketTs sf pct (lookupCents rs.cents)
+      (st.put { rs with item := some it }, showTLItem it)
+    | _, _, _ => (st, ["bad-op"])
   | ["merge", host, cmpc] =>
-    match parseTag? host, parseBool? cmpc, st.item with
-    | some host, some cmpc, some it =>
-      let r := receive st.var it st.bucketTs host
-      (st, [s!"agg key {showKey r.row.key} warn={(tsFromTL it.t st.bucketTs).2} err={r.err}"] ++ showRowVals cmpc "agg" r.row)
+    match parseTag? host, parseBool? cmpc, st.get?.bind (fun rs => rs.item.map (fun it => (rs, it))) with
+    | some host, some cmpc, some (rs, it) =>
+      let r := receive st.var it rs.bucketTs host
+      (st, [s!"agg key {showKey r.row.key} warn={(tsFromTL it.t rs.bucketTs).2} err={r.err}"] ++ showRowVals cmpc "agg" r.row)
     | _, _, _ => (st, ["bad-op"])
   | _ => (st, ["bad-op"])
 
